@@ -191,6 +191,34 @@ def gen_layered(rng):
     prog = {'nodes': nodes, 'order': order, 'input': inp, 'output': out, 'tags': []}
     if rng.random() < 0.4:
         gen.add_generics(prog, rng, 0.3)        # build_node() derivatives keep the mode of their base class
+    elif rng.random() < 0.3:
+        # several build_node() derivatives of ONE sync base class, created without class_name (they all carry the class
+        # name Generic<Base>), each with its own execution mode through attrs={'tags': ...}
+        cand = [x for x in order if x != inp and x != out and len(nodes[x]['params']) >= 1]
+        rng.shuffle(cand)
+        for first in cand[:1]:
+            k = len(nodes[first]['params'])
+            same = [first] + [x for x in cand[1:] if len(nodes[x]['params']) == k][:rng.randint(1, 3)]
+            if len(same) < 2:
+                break
+            base_id = 'G' + first[1:]
+            for x in same:
+                nodes[x]['params'] = [['abc'[i], m] for i, (_, m) in enumerate(nodes[x]['params'])]
+                nodes[x]['mode'] = rng.choice(['thread', 'inline', 'thread_tag', 'custom_tag', 'inline'])
+            base = copy.deepcopy(nodes[first])
+            base.update(id=base_id, generic_base=True, attrs_tags_base=True, nm=['custom', 'base_' + first], mode='thread')
+            nodes[base_id] = base
+            order.insert(order.index(min(same, key=order.index)), base_id)
+            for x in same:
+                nodes[x].update(generic_of=base_id, attrs_tags=True, no_class_name=True)
+    if rng.random() < 0.3:
+        # node classes deriving from another node class of the pipeline and declaring their own tags and process
+        plain = [x for x in order if x != inp and not nodes[x].get('generic_of') and not nodes[x].get('generic_base')]
+        for x in plain:
+            earlier = [b for b in plain if order.index(b) < order.index(x) and not nodes[b].get('base')]
+            if earlier and rng.random() < 0.3:
+                nodes[x]['base'] = rng.choice(earlier)
+                nodes[x]['explicit_tags'] = True
     return prog
 
 
@@ -402,7 +430,113 @@ def work_c08(prop, tier, seed, widx, nworkers):
             acc.counters['overlapping_runs'] = acc.counters.get('overlapping_runs', 0) + k
         built.close()
     _pipeline_ids(acc)
+    _fs_store_runs(acc, seed=f'{seed}-{widx}')
     return acc.result()
+
+
+def _fs_store_runs(acc, seed='0', rounds=3):
+    """The library's own FileSystemArtifactStore under several runs of ONE chart (started together and one after the
+    other, explicit and generated pipeline ids): every run succeeds, and the directory <dir>/<model>/<pipeline_id> of
+    every run holds exactly that run's artifacts (values carry the run's input).  Real loop, scratch directory under
+    .work (removed afterwards)."""
+    import asyncio
+    import pickle
+    import shutil
+    import tempfile
+    harness.setup_engine()
+    from ml_pipeline_engine.artifact_store.store.filesystem import FileSystemArtifactStore
+    from ml_pipeline_engine.chart import PipelineChart
+    from ml_pipeline_engine.dag_builders.annotation import build_dag
+    from ml_pipeline_engine.dag_builders.annotation.marks import Input
+    from ml_pipeline_engine.node import ProcessorBase
+    rng = random.Random(f'fs-{seed}')
+    work = os.path.join(os.path.dirname(os.path.dirname(os.path.abspath(__file__))), '.work')
+    os.makedirs(work, exist_ok=True)
+    root = tempfile.mkdtemp(prefix='rvfs_', dir=work)
+
+    class Store(FileSystemArtifactStore):
+        def __init__(self, ctx):
+            super().__init__(ctx, artifact_dir=root)
+
+    class FsIn(ProcessorBase):
+        name = 'rv_fs_in'
+
+        async def process(self, x: int) -> int:
+            return x
+
+    class FsMid(ProcessorBase):
+        name = 'rv_fs_mid'
+
+        async def process(self, a: Input(FsIn)) -> int:
+            await asyncio.sleep(0)
+            return a * 10
+
+    class FsOut(ProcessorBase):
+        name = 'rv_fs_out'
+
+        async def process(self, a: Input(FsMid), b: Input(FsIn)) -> int:
+            return a + b
+    FsIn.process.__annotations__ = {'x': int, 'return': int}
+    FsMid.process.__annotations__ = {'a': Input(FsIn), 'return': int}
+    FsOut.process.__annotations__ = {'a': Input(FsMid), 'b': Input(FsIn), 'return': int}
+    chart = PipelineChart('rv_fs_model', build_dag(input_node=FsIn, output_node=FsOut), artifact_store=Store)
+    ctr = [0]
+
+    async def one(x, explicit):
+        if explicit:
+            ctr[0] += 1
+            pid = f'fs{seed}-{ctr[0]}'
+            return x, await chart.run(pipeline_id=pid, input_kwargs={'x': x})
+        return x, await chart.run(input_kwargs={'x': x})
+
+    async def scenario():
+        out = []
+        for _ in range(rounds):
+            k = rng.randint(2, 4)
+            xs = [rng.randint(1, 1000) for _ in range(k)]
+            out += await asyncio.gather(*[one(x, rng.random() < 0.5) for x in xs])      # started together
+            out.append(await one(rng.randint(1, 1000), rng.random() < 0.5))                # and one after the other
+        return out
+    import warnings
+    loop = asyncio.new_event_loop()
+    bad = None
+    try:
+        with warnings.catch_warnings():
+            warnings.simplefilter('ignore')
+            res = loop.run_until_complete(scenario())
+        ids = [str(r.pipeline_id) for _, r in res]
+        for x, r in res:
+            acc.evaluations += 1
+            acc.counters['fs_store_runs'] = acc.counters.get('fs_store_runs', 0) + 1
+            if r.error is not None or r.value != x * 11:
+                bad = {'why': 'run failed or wrong value', 'x': x, 'value': repr(r.value), 'error': repr(r.error)[:200]}
+                break
+            d = os.path.join(root, 'rv_fs_model', str(r.pipeline_id))
+            exp = {'processor__rv_fs_in': x, 'processor__rv_fs_mid': x * 10, 'processor__rv_fs_out': x * 11}
+            got = {}
+            for fn in sorted(os.listdir(d)) if os.path.isdir(d) else []:
+                with open(os.path.join(d, fn), 'rb') as fh:
+                    got[fn.rsplit('.', 1)[0]] = pickle.load(fh)
+            if got != exp:
+                bad = {'why': 'the directory of the run does not hold exactly its artifacts', 'x': x, 'got': repr(got)[:300]}
+                break
+        if bad is None and len(set(ids)) != len(ids):
+            bad = {'why': 'pipeline ids not distinct', 'ids': ids[:8]}
+    except BaseException as e:  # noqa: BLE001
+        bad = {'why': 'scenario raised', 'err': repr(e)[:300]}
+    finally:
+        loop.close()
+        asyncio.set_event_loop(None)
+        shutil.rmtree(root, ignore_errors=True)
+    if bad is not None:
+        acc.findings.append({'kind': 'fs_store_runs_not_isolated', 'prop': ['C08', 'C19'], 'tags': [], 'detail': bad,
+                             'case': {'what': 'fs_store_runs', 'seed': seed, 'runner': 'fs_store_runs_case'}})
+
+
+def fs_store_runs_case(case):
+    acc = Acc('C08')
+    _fs_store_runs(acc, seed=case.get('seed', '0'))
+    return [{'kind': f['kind'], 'prop': f['prop'], 'detail': f['detail']} for f in acc.findings]
 
 
 def _pipeline_ids(acc, batches=40, width=6):
